@@ -64,6 +64,7 @@ type FuncSpec struct {
 	Modifies []string // heap names or "nothing"; empty = computed
 	Pure     bool     // no heap modification: checked against computed Mod set
 	Decr     *Clause
+	StackBound int // maximal value of the decreases measure accepted from callers outside the recursion (0 = none)
 	Bounded  int
 	File     string
 	Line     int
@@ -89,7 +90,7 @@ var labelRe = regexp.MustCompile(`^\[([A-Za-z0-9_.\-,]+)\]\s*`)
 var pureRe = regexp.MustCompile(`^pure\s+([A-Za-z_][A-Za-z0-9_]*)\s*\(([^)]*)\)\s*([^=]*?)\s*=\s*(.*)$`)
 
 var clauseKeywords = map[string]bool{"requires": true, "ensures": true, "loop": true, "mode": true, "inline": true,
-	"modular": true, "modifies": true, "decreases": true, "let": true, "end": true, "func": true, "returns": true, "pure": true,
+	"modular": true, "modifies": true, "decreases": true, "let": true, "end": true, "func": true, "returns": true, "stackbound": true, "pure": true,
 	"type": true, "props": true, "bounded": true, "trusted": true, "purefn": true, "package": true, "skip": true}
 
 // extractSpecLines pulls the //@ lines out of a Go file (or takes every
@@ -276,6 +277,12 @@ func (sp *Specs) parseFile(path string, data []byte, pkgPath string) error {
 				n := strings.TrimSpace(parts[0])
 				cur.Lets[n] = e
 				cur.LetOrder = append(cur.LetOrder, n)
+			case "stackbound":
+				n, err := strconv.Atoi(strings.TrimSpace(rest))
+				if err != nil {
+					return fmt.Errorf("%s:%d: bad stackbound", path, line)
+				}
+				cur.StackBound = n
 			case "returns":
 				c, err := mkClause(rest, line)
 				if err != nil {
